@@ -2,6 +2,7 @@
 # necessary condition of the round trip, decided for all field values).
 
 import ast
+import os
 import struct
 
 from report import AnalysisError
@@ -574,9 +575,18 @@ def r8_roundtrip(L, repo):
         kw = {"legacy": legacy} if any(a.arg == "legacy" for a in g.args.args + g.args.kwonlyargs) else {}
         return bytes(e.call_func(g, c.mod, e._bindargs(g, ["<self>"], kw), self_cls=ci, writeback=True))
 
-    def decode(ci, data):
-        e2 = Ev(repo, ci.mod, env={}, self_cls=ci)
-        e2.ignore_calls = ("log.", "logging.")
+    def decode(ci, data, into=None):
+        e2 = into
+        if e2 is None:
+            e2 = Ev(repo, ci.mod, env={}, self_cls=ci)
+            e2.ignore_calls = ("log.", "logging.")
+            # a decoder object starts as the constructor leaves it (all arguments defaulted)
+            try:
+                c0, i0 = repo.find_method(ci, "__init__")
+                e2.call_func(i0, c0.mod, e2._bindargs(i0, ["<self>"], {}), self_cls=ci, writeback=True)
+            except (Unknown, Raised, TypeError, KeyError, AttributeError):
+                e2 = Ev(repo, ci.mod, env={}, self_cls=ci)
+                e2.ignore_calls = ("log.", "logging.")
         c, p = repo.find_method(ci, "parse_msg")
         e2.call_func(p, c.mod, e2._bindargs(p, ["<self>", bytearray(data)], {}), self_cls=ci, writeback=True)
         return e2
@@ -606,6 +616,7 @@ def r8_roundtrip(L, repo):
     wit.append(("RxMsg", "v1 NOPE indication", {"ver": 1, "fn": HYPER - 1, "tn": 0, "rssi": -110, "toa256": 0, "ci": 1280, "nope_ind": True, "burst": None}, False))
     keys = {"TxMsg": ["ver", "fn", "tn", "pwr", "burst"], "RxMsg": ["ver", "fn", "tn", "rssi", "toa256", "nope_ind", "mod_type", "tsc_set", "tsc", "ci", "burst"]}
     n = 0
+    encoded = {}
     for cls, title, flds, legacy in wit:
         ci = repo.need_class("data_msg", cls)
         fn_ = cls + ".gen_msg / parse_msg"
@@ -630,6 +641,7 @@ def r8_roundtrip(L, repo):
             L.ob("C01.R8", FD, fn_, "%s %s: encodes and decodes" % (cls, title), "no exception", "raises %s" % ex.cls, False)
             continue
         n += 1
+        encoded.setdefault(cls, []).append((title, data, before, cmp_keys))
         L.require("C01.R8", FD, fn_, "%s %s: decoding the encoding returns every field" % (cls, title), before, dec)
         L.require("C01.R8", FD, fn_, "%s %s: encoding leaves the message's fields as they were" % (cls, title), before, after)
         L.ob("C01.R8", FD, fn_, "%s %s: encoding twice gives the same octets" % (cls, title), "identical", "identical" if data == data2 else
@@ -639,6 +651,135 @@ def r8_roundtrip(L, repo):
                  "the changed burst", "the changed burst" if mutated[0] == mutated[1] else "another burst (%s)" % (mutated[1],),
                  mutated[0] == mutated[1])
     L.floor("C01.R8", "witness messages folded end to end", n, 30)
+    # A decoder object is used for one datagram after the other (DATADumpFile, a per-interface message): what a message
+    # decodes to must not depend on what the object decoded before - longer burst before shorter, burst before NOPE /
+    # header-only, one header version before the other.
+    for cls, lst in sorted(encoded.items()):
+        ci = repo.need_class("data_msg", cls)
+        fn_ = cls + ".parse_msg"
+        pick, seen_k = [], set()
+        for title, data, before, ck in lst:
+            k = (before.get("ver"), len(data), before.get("nope_ind"))
+            if k not in seen_k and "legacy" not in title:
+                seen_k.add(k)
+                pick.append((title, data, before, ck))
+        pick = pick[:6]
+        for ta, da, _ba, _ka in pick:
+            for tb, db, bb, kb in pick:
+                if ta == tb:
+                    continue
+                try:
+                    e2 = decode(ci, da)
+                    got = fields_of(decode(ci, db, into=e2), kb)
+                except (Unknown, Raised):
+                    continue        # (single decodes are decided above; a sequence that does not fold adds nothing)
+                L.require("C01.R8", FD, fn_, "%s decoded into an object that held `%s` before: every field is the new message's (`%s`)" % (cls, ta, tb),
+                          bb, got)
+    # The property quantifies over the messages THE TOOLKIT accepts as valid, not over the protocol ranges: whatever
+    # validate() accepts beyond them (C13 decides whether it should) has to survive its own encoding as well.
+    for cls, title, flds in _accepted_extras(L, repo, members, HYPER):
+        ci = repo.need_class("data_msg", cls)
+        fn_ = cls + ".gen_msg / parse_msg"
+        cmp_keys = [k for k in keys[cls] if k in flds]
+        for legacy in ((False, True) if flds.get("ver") == 0 else (False,)):
+            try:
+                e = Ev(repo, ci.mod, env={"self." + k: v for k, v in flds.items()}, self_cls=ci)
+                e.ignore_calls = ("log.", "logging.")
+                before = fields_of(e, cmp_keys)
+                data = encode(ci, e, legacy)
+                try:
+                    dec = fields_of(decode(ci, data), cmp_keys)
+                except Raised as ex:
+                    dec = "decoding raises %s" % ex.cls
+            except (Unknown, Raised):
+                continue        # not evaluable / accepted but not encodable: no encoding to decode (C13's and C14's matter)
+            L.require("C01.R8", FD, fn_, "%s accepted by validate() beyond the protocol ranges (%s)%s: decoding the encoding returns every field" % (
+                cls, title, " with legacy padding" if legacy else ""), before, dec)
+
+
+def _accepted_extras(L, repo, members, HYPER):
+    """witness messages from (accepted set of validate()) minus (protocol ranges), one per box of the difference"""
+    import json as _json
+    import importlib
+    from report import VERIF
+    from absdom import boxes_minus, INF
+    from accept import Extractor, OTHER
+    from consteval import Arr
+    try:
+        c13 = importlib.import_module("rules.c13")
+        with open(os.path.join(VERIF, "spec", "ranges.json")) as f:
+            spec = _json.load(f)
+        enum_ci = repo.need_class("data_msg", "Modulation")
+        out = []
+        for clsname in ("TxMsg", "RxMsg"):
+            ci = repo.need_class("data_msg", clsname)
+            ex = Extractor(repo, ci, enum_ci, c13.field_table(repo, ci))
+            acc = ex.run("validate")
+            top = ex.tops()
+            S = [b for _, b in c13.spec_boxes(spec, clsname, ex)]
+            extra = boxes_minus(acc, S, top)
+            # a valid base message to complete the fields a box leaves open
+            base = {"fn": 1000, "tn": 3, "pwr": 10, "rssi": -60, "toa256": 0, "ci": 0, "tsc": 0, "tsc_set": 0, "nope_ind": False,
+                    "mod_type": members.get("ModGMSK")}
+            seen = set()
+            for b in extra[:12]:
+                flds, why = {}, []
+                ok = True
+                blen = None
+                for k, d in sorted(b.items()):
+                    t = top.get(k)
+                    constrained = t is None or d != t
+                    if k == "len(burst)":
+                        iv = d.ints.iv
+                        if iv and constrained:
+                            lo, hi = iv[0]
+                            blen = int(lo) if lo != -INF else (int(hi) if hi != INF else 148)
+                            blen = min(max(blen, 0), 2000)
+                        continue
+                    if k == "burst":
+                        flds[k] = "present" if not d.ints.empty() else None
+                        continue
+                    if k == "mod_type":
+                        names = sorted(x for x in d.syms if x != OTHER and x in members)
+                        flds[k] = members[names[0]] if names else None
+                        if not names and not d.none:
+                            ok = False
+                        continue
+                    if not d.ints.empty():
+                        lo, hi = d.ints.iv[0]
+                        if not constrained and k in base:
+                            v = base[k]
+                        else:
+                            v = int(lo) if lo != -INF else (int(hi) if hi != INF else 0)
+                        flds[k] = bool(v) if k == "nope_ind" else v
+                    elif d.none:
+                        flds[k] = None
+                    else:
+                        ok = False
+                    if constrained:
+                        why.append("%s=%s" % (k, flds.get(k)))
+                if not ok:
+                    continue
+                if flds.get("nope_ind") is True:
+                    for k in ("mod_type", "tsc_set", "tsc"):        # not part of a NOPE indication's encoding
+                        flds.pop(k, None)
+                    why = [w for w in why if not w.startswith(("mod_type=", "tsc_set=", "tsc="))]
+                if flds.get("burst") == "present":
+                    if blen is None:
+                        m = flds.get("mod_type")
+                        blen = m.attrs.get("bl", 148) if m is not None and flds.get("ver") == 1 else 148
+                    flds["burst"] = bytearray([1, 0] * (blen // 2) + [1] * (blen % 2)) if clsname == "TxMsg" else \
+                        Arr("b", [((i * 3) % 255) - 127 for i in range(blen)])
+                    why.append("len(burst)=%d" % blen)
+                key = (clsname, tuple(why))
+                if key in seen:
+                    continue
+                seen.add(key)
+                out.append((clsname, ", ".join(why)[:160], flds))
+        return out[:16]
+    except Exception as ex:          # the extraction is C13's rule; when it is not applicable there are no extra witnesses
+        L.extra.setdefault("notes", []).append("[C01.R8] accepted-set extras not derived: %s" % str(ex)[:120])
+        return []
 
 
 def run(L, tier):
